@@ -133,12 +133,17 @@ func runC20(res *Result, rng *RNG, tier string, outDir string) {
 				}
 				if tok != nil && panicked == "" {
 					c := containerOf(tok)
-					want := ed25519.NewKeyFromSeed(data[:32]).Public().(ed25519.PublicKey)
-					if c.ProofKind != 0 || string(c.Proof) != string(data[:32]) {
-						res.Violate("wrong-secret:"+op, fmt.Sprintf("%s: next secret is not the 32 bytes the source delivered", op), replay)
-					}
-					if string(c.last().Key) != string(want) {
-						res.Violate("wrong-next-key:"+op, fmt.Sprintf("%s: announced key is not derived from the delivered bytes", op), replay)
+					if len(data) >= 32 {
+						want := ed25519.NewKeyFromSeed(data[:32]).Public().(ed25519.PublicKey)
+						if c.ProofKind != 0 || string(c.Proof) != string(data[:32]) {
+							res.Violate("wrong-secret:"+op, fmt.Sprintf("%s: next secret is not the 32 bytes the source delivered", op), replay)
+						}
+						if string(c.last().Key) != string(want) {
+							res.Violate("wrong-next-key:"+op, fmt.Sprintf("%s: announced key is not derived from the delivered bytes", op), replay)
+						}
+					} else {
+						replay["next_secret_of_returned_token"] = fmt.Sprintf("%x", c.Proof)
+						res.Violate("token-from-failed-source:"+op, fmt.Sprintf("%s returned a token although the source delivered only %d bytes; its next secret %x did not come from the source", op, len(data), c.Proof), replay)
 					}
 					if _, err := tok.AuthorizerFor(biscuit.WithSingularRootPublicKey(pub)); err != nil {
 						res.Violate("not-verifying:"+op, fmt.Sprintf("%s: returned token does not verify: %v", op, err), replay)
